@@ -7,6 +7,7 @@ import N2V.Lemmas.WorldClean
 import N2V.Lemmas.WorldSettled
 import N2V.Lemmas.WorldReflect
 import N2V.Lemmas.WorldSettledD
+import N2V.Lemmas.WorkSkip
 import N2V.Lemmas.SchedDone2
 namespace N2V.C03
 open N2V N2V.Work N2V.Load
@@ -290,6 +291,19 @@ theorem completed_steps_are_up_to_date_next_time_reloaded (w1 : World) (m : Byte
   have j := Run.buildReloaded_done_or_failed gok a _ (JG e2) (jd_spec e2 inv0 l0 plain adopt perms fin) e2
     (jg_initial e2 a inv0 l0 hc0) n0 h hsrc
   exact next_startup_upToDate w1 m l2 e2 hl _ _ j hsrc w' hw' e0' hl' b bm hb hdoneb hnp hall
+
+/-- **A step whose own files were left alone is not re-run** (restat behaviour).  If a step is up
+    to date and then other commands run - rewriting THEIR outputs, or leaving an output untouched
+    because its content would not change (`cp -p`, `copy_if_different`; the `split` commands of the
+    model) - then, as long as the modification times of the files this step names are what they
+    were, it is still up to date, and `check_build_dirty` finds it clean (truthful cache, generated
+    inputs stat()ed): being downstream of a step that RAN is not a reason to run. -/
+theorem untouched_step_is_not_rerun (e e' : Env) (b : Nat) (bm : BuildM) (hb : buildOf e'.g b = some bm)
+    (hg : e'.g = e.g) (hd : discOf e' b = discOf e b) (hh : assocGet e'.hashes b = assocGet e.hashes b)
+    (hm : ∀ f ∈ bm.dirtying ++ discOf e b ++ bm.outs, mtimeOf e' f = mtimeOf e f) (u : UpToDate e b bm)
+    (hc : Coh e') (hgen : ∀ f ∈ bm.dirtying ++ discOf e' b, (fileInput e'.g f).isSome = true → Cached e' f) :
+    (checkDirty e' b).1 = some false :=
+  (checkDirty_upToDate e' b bm hb hc (upToDate_frame e e' b bm hg hd hh hm u) hgen).1
 
 /-- **The monitor's verdict is the theorem's hypothesis.**  `World.settledC` is the decidable
     predicate the driver evaluates on the world the real n2 left behind (monitor
